@@ -238,11 +238,21 @@ def extract_decode(body):
         if p is None:
             continue
         np = tr.nplace(p)
-        lt = body.local_ty(np.l)
-        if ty_str(lt) == "zvt_builder::Tag" and np.fields() == ["0"] or \
-                (ty_str(lt) == "zvt_builder::Tag" and [e for e in np.p if e != "deref"] and
-                 np.p[-1][0] == "f" and np.p[-1][1] == 0):
-            switches.append((i, t, np))
+        if not p["p"] or not isinstance(p["p"][-1], dict) or p["p"][-1].get("f") != 0:
+            continue
+        # type of the value the final `.0` is applied to
+        base_ty = body.local_ty(p["l"])
+        for e in p["p"][:-1]:
+            if e == "deref":
+                base_ty = base_ty["t"] if base_ty and base_ty.get("k") in ("ref", "ptr") else None
+            elif isinstance(e, dict) and "f" in e:
+                base_ty = e.get("ty")
+            elif isinstance(e, dict) and "dc" in e:
+                pass
+            else:
+                base_ty = None
+        if ty_str(base_ty) == "zvt_builder::Tag":
+            switches.append((i, t, NPlace(p["l"], [])))
     info.switches = switches
     tagged_calls = [c for c in calls if c["tag"] is not None]
     info.positional = sorted([c for c in calls if c["tag"] is None], key=lambda c: pos[c["bb"]])
